@@ -49,6 +49,46 @@ Theorem area_outlet_condition : forall ds main uparea amin l upa sb idxs x,
 Proof. exact SubbasSpec.area_outlet_condition. Qed.
 Print Assumptions area_outlet_condition.
 
+(* AREA SUB-BASINS ARE LARGER THAN THE THRESHOLD: the OWN area of a sub-basin (upstream area at its outlet minus the upstream
+   areas of the sub-basins draining into it) exceeds area_min for every returned outlet that is not a pit -- for upstream
+   areas that accumulate positive cell weights and for LEVEL orders (the downstream cell of a cell lies one level lower and
+   the order is sorted by level), which is what the library's own orders are (proved below for the rank sort).  The
+   hypothesis is necessary: area_own_bound_needs_level_order exhibits a 9-cell network and a topological order that is not
+   a level order on which a sub-basin keeps exactly area_min (the kernel reads the downstream cell's remaining area, which a
+   later tributary of a cell further down still overwrites). *)
+From PF Require Import AreaOwnDefs AreaOwn AreaOwnEx.
+Theorem area_own_bound : forall ds sq main uparea amin,
+  topo ds sq -> upstream_closed ds sq -> level_order ds sq -> length uparea = length ds -> accumulates ds sq uparea ->
+  main = main_upstream ds uparea 0 ->
+  let r := subbasins_area ds sq main uparea amin in
+  forall x, In x (snd r) -> dsf ds x <> x -> amin < own_area ds (fst r) uparea x.
+Proof. exact AreaOwn.area_own_bound. Qed.
+Print Assumptions area_own_bound.
+Theorem area_own_bound_order_sort : forall ds, wf ds -> forall uparea amin, length uparea = length ds ->
+  accumulates ds (order_sort ds) uparea ->
+  let r := subbasins_area ds (order_sort ds) (main_upstream ds uparea 0) uparea amin in
+  forall x, In x (snd r) -> dsf ds x <> x -> amin < own_area ds (fst r) uparea x.
+Proof. exact AreaOwnEx.area_own_bound_order_sort. Qed.
+Print Assumptions area_own_bound_order_sort.
+From PF Require Import AreaOwnWalk.
+Theorem idxs_seq_level : forall ds, wf ds -> forall pits, (forall p, In p pits <-> (p < size ds)%nat /\ dsf ds p = p) -> NoDup pits ->
+  level_order ds (idxs_seq ds pits).
+Proof. exact AreaOwnWalk.idxs_seq_level. Qed.
+Print Assumptions idxs_seq_level.
+Theorem area_own_bound_idxs_seq : forall ds, wf ds -> forall pits, (forall p, In p pits <-> (p < size ds)%nat /\ dsf ds p = p) -> NoDup pits ->
+  forall uparea amin, length uparea = length ds -> accumulates ds (idxs_seq ds pits) uparea ->
+  let r := subbasins_area ds (idxs_seq ds pits) (main_upstream ds uparea 0) uparea amin in
+  forall x, In x (snd r) -> dsf ds x <> x -> amin < own_area ds (fst r) uparea x.
+Proof. exact AreaOwnWalk.area_own_bound_idxs_seq. Qed.
+Print Assumptions area_own_bound_idxs_seq.
+Theorem area_own_bound_needs_level_order :
+  exists ds sq main uparea amin x,
+    topo ds sq /\ upstream_closed ds sq /\ length uparea = length ds /\ accumulates ds sq uparea /\
+    main = main_upstream ds uparea 0 /\ In x (snd (subbasins_area ds sq main uparea amin)) /\ dsf ds x <> x /\
+    ~ amin < own_area ds (fst (subbasins_area ds sq main uparea amin)) uparea x.
+Proof. exact AreaOwnEx.area_own_bound_needs_level_order. Qed.
+Print Assumptions area_own_bound_needs_level_order.
+
 (* PFAFSTETTER DIGITS: every label of the Pfafstetter map, at every depth >= 1, is 0 (no outlet downstream) or a number
    of exactly `depth` digits each of which is 1..9 -- refining a level adds 1..8 to a digit that is still 1, so there is
    never a zero digit and never a carry into the coarser level (invariant of the work list: a queued label has digits
